@@ -577,13 +577,14 @@ package biscuit
 
 //@ func (v *authorizer) Reset()
 //@ serves C10 C13
-//@ requires v != nil && worldWF(v.baseWorld) && v.baseSymbols != nil
+//@ requires authWF(v)
 //@ modifies v.world, v.symbols, v.checks, v.policies, v.dirty
 //@ ensures clean_world[C13]: v.world != nil && fresh(v.world) && fresh(v.world.facts) && *v.world.facts == *v.baseWorld.facts && len(v.world.rules) == len(v.baseWorld.rules) && (forall j int :: { v.world.rules[j] } 0 <= j && j < len(v.world.rules) ==> v.world.rules[j] == v.baseWorld.rules[j]) && v.world.runLimits == v.baseWorld.runLimits
 //@ ensures clean_symbols[C13]: v.symbols != nil && fresh(v.symbols) && fresh(arr(*v.symbols)) && len(*v.symbols) == len(*v.baseSymbols) && (forall j int :: { (*v.symbols)[j] } 0 <= j && j < len(*v.symbols) ==> (*v.symbols)[j] == (*v.baseSymbols)[j])
 //@ ensures clean_lists[C13]: len(v.checks) == 0 && len(v.policies) == 0 && !v.dirty
 //@ ensures base_untouched[C13]: v.baseWorld == old(v.baseWorld) && v.baseSymbols == old(v.baseSymbols)
 //@ ensures authWF(v)
+//@ ensures keeps_inv: old(authInv(v)) ==> authInv(v)
 
 //@ func (v *authorizer) Biscuit() (res *Biscuit)
 //@ serves C10
@@ -719,6 +720,9 @@ package biscuit
 //@ loop 13 invariant len(errMsg) == len(errs) && fresh(arr(errMsg)) && (forall k int :: { errs[k] } 0 <= k && k < len(errs) ==> errs[k] != nil)
 //@ ensures allow_needed[C04]: err == nil ==> (exists p int :: { v.policies[p] } 0 <= p && p < len(v.policies) && v.policies[p].Kind == PolicyKindAllow)
 //@ ensures within_limits[C11]: err == nil ==> len(*v.world.facts) < v.world.runLimits.maxFacts
+//@ ensures keeps_wf: err != datalog.ErrWorldRunLimitTimeout ==> authWF(v)
+//@ ensures keeps_content: contentWF(v.biscuit)
+//@ ensures keeps_apart: err != datalog.ErrWorldRunLimitTimeout ==> factsApart(v) && rulesApart(v)
 
 //@ func (v *authorizer) Query(rule Rule) (res FactSet, err error)
 //@ serves C03 C08 C10 C11 C13 C19
@@ -727,6 +731,7 @@ package biscuit
 //@ loop 0 invariant len(result) == #i && cap(result) == len(*facts) && fresh(arr(result)) && factsWF(*facts)
 //@ ensures limit_error_is_reported[C11]: err == nil ==> len(*v.world.facts) < v.world.runLimits.maxFacts
 //@ ensures base_untouched[C13]: v.baseWorld == old(v.baseWorld) && v.baseSymbols == old(v.baseSymbols)
+//@ ensures keeps_inv: err != datalog.ErrWorldRunLimitTimeout ==> authInv(v)
 
 // ---------------------------------------------------------------------------
 // read-only accessors of a token (C17 C09 C10)
@@ -816,12 +821,16 @@ package biscuit
 //@ loop 1 invariant rules: rulesGrown(v.world.rules, old(v.world.rules)) && rulesGrownInLoop(v.world.rules, pre(v.world.rules))
 //@ loop 2 modifies elems(v.checks)
 //@ loop 2 invariant len(v.checks) == len(pbPolicies.Checks) && fresh(arr(v.checks)) && v.symbols != nil
+//@ loop 2 invariant filled: forall k int :: { v.checks[k] } 0 <= k && k < len(v.checks) ==> bCheckWF(v.checks[k])
 //@ loop 3 modifies elems(v.policies)
 //@ loop 3 invariant len(v.policies) == len(pbPolicies.Policies) && fresh(arr(v.policies)) && v.symbols != nil
+//@ loop 3 invariant filled: forall k int :: { v.policies[k] } 0 <= k && k < len(v.policies) ==> bPolicyWF(v.policies[k])
 //@ loop 3 invariant kinds: forall k int :: { v.policies[k] } 0 <= k && k < #i ==> (v.policies[k].Kind == PolicyKindAllow && *pbPolicies.Policies[k].Kind == pb.Policy_Allow) || (v.policies[k].Kind == PolicyKindDeny && *pbPolicies.Policies[k].Kind == pb.Policy_Deny)
 //@ loop 4 modifies elems(policy.Queries)
 //@ loop 4 invariant len(policy.Queries) == len(pbPolicy.Queries) && fresh(arr(policy.Queries)) && v.symbols != nil
+//@ loop 4 invariant filled: forall k int :: { policy.Queries[k] } 0 <= k && k < len(policy.Queries) ==> bRuleWF(policy.Queries[k])
 //@ ensures counts[C18]: err == nil ==> len(v.checks) == len(pbPolicies.Checks) && len(v.policies) == len(pbPolicies.Policies)
+//@ ensures keeps_inv: err == nil ==> authInv(v)
 //@ ensures kinds[C18]: err == nil ==> (forall k int :: { v.policies[k] } 0 <= k && k < len(v.policies) ==> (v.policies[k].Kind == PolicyKindAllow && *pbPolicies.Policies[k].Kind == pb.Policy_Allow) || (v.policies[k].Kind == PolicyKindDeny && *pbPolicies.Policies[k].Kind == pb.Policy_Deny))
 
 // ---------------------------------------------------------------------------
